@@ -197,6 +197,9 @@ def judge(ctx, c, answers):
             else:
                 for w, extra in rep:
                     cex_bad = judge_counterexample(w, extra, L[0], L[1], getattr(ex, 'minimal_cex', True))
+                    if cex_bad and w == '' and any('ε' in v for v in L[0] | L[1]):
+                        # the printed 'ε' is ambiguous when the LETTER ε belongs to the alphabet: it may be the one-letter word
+                        cex_bad = judge_counterexample('ε', extra, L[0], L[1], getattr(ex, 'minimal_cex', True))
                     if cex_bad:
                         ctx.violation(cex_bad, {'case': c_min(c), 'answer': a, 'out': out, 'word': w, 'extra': extra})
                         break
@@ -211,13 +214,17 @@ def judge(ctx, c, answers):
             use_len = getattr(ex, 'minimal_cex', True)
             mine = None if not rep else [len(rep[0][0]) if use_len else 0, rep[0][1]]
             model = None if m is None else ([len(m['word']) if use_len else 0, m['extra']] if isinstance(m, dict) else 'ERR')
+            if rep and isinstance(m, dict) and rep[0][0] == '' and m['word'] == 'ε' and m['extra'] == rep[0][1]:
+                model = mine          # the printed 'ε' is the one-letter word over an alphabet that contains the letter ε
             if mine != model:
                 ctx.violation('correspondence:counterexample:' + ex.name, {'case': c_min(c), 'answer': a, 'impl': out, 'model': lx},
                               no_input=cex_bad is None)
         if getattr(ex, 'may_raise', False):
             ctx.record('c12/%s' % core.digest([c_min(c), a]), 'OK' if verdict == 'OK' else 'NOT-OK')
         else:
-            ctx.record('c12/%s' % core.digest([c_min(c), a]), [verdict, [[len(w) if getattr(ex, 'minimal_cex', True) else 0, e] for w, e in rep]])
+            # (where the letter ε occurs in the instance the printed 'ε' is ambiguous between the empty word and a one-letter word: polarity only)
+            use_len = getattr(ex, 'minimal_cex', True) and 'ε' not in repr(c['inst']) and 'ε' not in a
+            ctx.record('c12/%s' % core.digest([c_min(c), a]), [verdict, [[len(w) if use_len else 0, e] for w, e in rep]])
         ctx.count('%s:%s' % (ex.name, verdict))
         ctx.case({'name': c['name'], 'inst': c['inst'], 'answer': a[:200]}, k > 0)
 
